@@ -32,30 +32,30 @@ def parseWriteScript (s : String) : Option (List WriteResp) :=
     | [a, f] => do pure { accept := ← a.toNat?, fail := f == "1" }
     | _ => none
 
-def stepOp (b : Buffer) (op : String) : Option (Buffer × String) :=
+def parseOp (op : String) : Option Op :=
   match op.splitOn ":" with
-  | ["w", h] => do
-    let d ← decHex h
-    let (b', n, e) := b.write d
-    pure (b', s!"{n}/{showErr e}")
+  | ["w", h] => do pure (.write (← decHex h))
   | ["wb", h] => do
     match ← decHex h with
-    | [v] => let (b', e) := b.writeByte v; pure (b', showErr e)
+    | [v] => pure (.writeByte v)
     | _ => none
-  | ["r", n] => do
-    let (b', out, e) := b.read (← n.toNat?)
-    pure (b', s!"{encHex out}/{showErr e}")
-  | ["rb"] =>
-    let (b', v, e) := b.readByte
-    some (b', s!"{encHex v.toList}/{showErr e}")
-  | ["reset"] => some (b.reset, "ok")
-  | ["rn", n, script] => do
-    let (b', r, e) := b.readNFrom (← parseReadScript script) (← n.toNat?)
-    pure (b', s!"{r}/{showErr e}")
-  | ["wt", script] => do
-    let (b', out, e) := b.writeTo (← parseWriteScript script)
-    pure (b', s!"{encHex out}/{showErr e}")
+  | ["r", n] => do pure (.read (← n.toNat?))
+  | ["rb"] => some .readByte
+  | ["reset"] => some .reset
+  | ["rn", n, script] => do pure (.readNFrom (← parseReadScript script) (← n.toNat?))
+  | ["wt", script] => do pure (.writeTo (← parseWriteScript script))
   | _ => none
+
+def showOut : Out → String
+  | .count n e => s!"{n}/{showErr e}"
+  | .err e => showErr e
+  | .bytes l e => s!"{encHex l}/{showErr e}"
+  | .byte v e => s!"{encHex v.toList}/{showErr e}"
+  | .unit => "ok"
+
+def stepOp (b : Buffer) (op : String) : Option (Buffer × String) := do
+  let (b', out) := b.step (← parseOp op)
+  pure (b', showOut out)
 
 def run (b : Buffer) : List String → List String → Option (Buffer × List String)
   | [], acc => some (b, acc.reverse)
